@@ -23,7 +23,7 @@
    command is TaskCmd.v's (property C02).
    Concurrency is a schedule: a list of [action]s; every theorem of props/C03.v quantifies over all
    of them.  Definitions only; lemmas live in proofs/Watcher_proofs.v. *)
-From Verif Require Import Common RoleTree TaskCmd Gen_LeafHandover Gen_FailureLabel Gen_OwnerRouting.
+From Verif Require Import Common RoleTree TaskCmd Gen_LeafHandover Gen_FailureLabel Gen_OwnerRouting Gen_Reconcile.
 Open Scope N_scope.
 
 Definition path := list nat.
@@ -293,6 +293,14 @@ Definition failure_label_irrelevant : bool :=
   list_eqb N.eqb error_case_states [1; 2; 3; 7] &&
   N.eqb error_label_dependence 0 && error_requires_roster.
 
+(* The model keeps no copy of the executor / agent id of a task: a task of the environment is owned
+   and locked until its executor or agent is reported lost.  In the code a TASK_RUNNING status
+   refreshes these ids (updateTaskStatus); that it does so only when the status carries the field -
+   a reconciliation answer of the master need not - is C18's regenerated fact
+   [status_refresh_guarded] (Gen_Reconcile.v, translator reconcile), used here as an explicit
+   hypothesis and exercised by the refresh-then-fail worlds of the harness. *)
+Definition refresh_keeps_ownership : bool := status_refresh_guarded.
+
 (* A fault of the model is addressed to a task position of THE environment: the implementation must
    route every failure report to the environment that owns the task now, whatever the message
    carries (a task claimed from an earlier environment - reuseUnlockedTasks - still stamps its
@@ -490,6 +498,10 @@ Inductive sop :=
 | SCmdFault (e : cev) (f : fault) (oc : list outc)
                                                   (* fault injected inside a before_<e> hook of the
                                                      request, then the request goes on, then > 500 ms *)
+| SRefresh                                        (* benign status traffic: TASK_RUNNING for every live task,
+                                                     as reconciliation answers after a reconnection or as
+                                                     plain updates, optional ids present or not: nothing
+                                                     changes (see [refresh_keeps_ownership]) *)
 | SRace (v : nat) (late : state) (oc : list outc).
                                                   (* terminal Mesos status of task v while idle; its
                                                      state update is stopped right before the hand-over
@@ -508,6 +520,7 @@ Definition run_sop (o : sop) (s : wsys) : wsys :=
       if is_flying s1
       then wait_timer oc (settle (wstep (AFinish oc) (settle (wstep (AFault f) s1))))
       else s1
+  | SRefresh => s
   | SRace v late oc =>
       (* pending after the fault: [PState v ERROR; PStatus v INACTIVE] (nothing else is pending
          between two steps of a script) *)
@@ -620,6 +633,7 @@ Definition corr03 (c : c03_case) : bool := list_eqb wo_eqb (run_model3 (c3_in c)
     7  the failure of a non-critical task (Mesos status, executor, agent) changed the environment state
     8  the failure of a non-critical task changed the outcome of the request it raced with
     9  the environment reports RUNNING at the end although a critical task is dead
+   10  benign status traffic (TASK_RUNNING refresh / reconciliation answers) changed the environment state
    14  observation malformed (no step observed / more steps than requested) *)
 
 Definition crit_in (t : rtree) (paths : list path) (i : nat) : bool :=
@@ -722,6 +736,7 @@ Fixpoint mon_ops3 (gone : bool) (t : rtree) (paths : list path) (prev : N) (view
              | SFault f _ => mon_fault t paths prev view f ob
              | SCmdFault e f oc => mon_cmdfault t paths prev view e f oc ob
              | SRace v _ _ => mon_fault t paths prev view (FDead [v]) ob
+             | SRefresh => if N.eqb (wo_state ob) prev then 0 else 10
              end) :: mon_ops3 gone t paths (wo_state ob) (wo_tasks ob) ops' obs'
       end
   end.
@@ -739,7 +754,7 @@ Definition mon_create3 (t : rtree) (paths : list path) (early : option fault) (o
       else match f with FInternal _ => 2 | FDead _ => 7 end
   end.
 
-Definition prio03 : list N := [14; 9; 1; 7; 8; 5; 6; 4; 2; 3].
+Definition prio03 : list N := [14; 9; 1; 10; 7; 8; 5; 6; 4; 2; 3].
 Definition pick03 (present : list N) : N :=
   match filter (fun c => memN c present) prio03 with [] => 0 | c :: _ => c end.
 
@@ -760,7 +775,7 @@ Definition mon03 (c : c03_case) : N := pick03 (mon_codes3 c).
    task, 8 a fault inside a request, 16 TASK_INTERNAL_ERROR, 32 several victims (agent), 64 the
    watcher took the ERROR (timer armed), 128 the timer's GO_ERROR left RUNNING, 256 STOP sent by the
    watcher, 512 a plain request, 1024 the model's environment ends in ERROR, 2048 nested workflow, 4096 a failure whose hand-over
-   to the parent role is overtaken by another update of the same task *)
+   to the parent role is overtaken by another update of the same task, 8192 benign status traffic *)
 Definition tag_fault (t : rtree) (paths : list path) (f : fault) : N :=
   N.lor (match f with FInternal _ => 16 | FDead (_ :: _ :: _) => 32 | FDead _ => 0 end)
         (if any_crit t paths (fault_victims f) then 2 else 4).
@@ -776,6 +791,7 @@ Fixpoint tag_ops3 (ops : list sop) (s : wsys) : N :=
          | SFault f _ => tag_fault (w_tree s) (w_paths s) f
          | SCmdFault _ f _ => N.lor 8 (tag_fault (w_tree s) (w_paths s) f)
          | SRace v _ _ => N.lor 4096 (tag_fault (w_tree s) (w_paths s) (FDead [v]))
+         | SRefresh => 8192
          end)
         (N.lor (if wst_beq (w_watch s') WFired && negb (wst_beq (w_watch s) WFired) then 64 else 0)
                (N.lor (if memN 7 (log_runevs (w_log s')) then 128 else 0)
